@@ -362,6 +362,34 @@ impl<K: Eq + Hash + HookKey, V> DashMap<K, V> {
         r
     }
 
+    /// see `dashmap::DashMap`; reported as an insert (the entry keeps the shard locked until it is
+    /// consumed, so for every other thread the lookup and the insert are one step)
+    #[track_caller]
+    pub fn entry(&self, key: K) -> dashmap::mapref::entry::Entry<'_, K, V> {
+        let loc = Location::caller();
+        let k = key.hook_key();
+        fire(Op::MapInsert, self.addr(), k, false, false, loc);
+        let e = self.0.entry(key);
+        let occupied = matches!(e, dashmap::mapref::entry::Entry::Occupied(_));
+        fire(Op::MapInsert, self.addr(), k, true, occupied, loc);
+        e
+    }
+
+    /// see `dashmap::DashMap`; reported as a get
+    #[track_caller]
+    pub fn view<Q, R>(&self, key: &Q, f: impl FnOnce(&K, &V) -> R) -> Option<R>
+    where
+        K: std::borrow::Borrow<Q>,
+        Q: Hash + Eq + HookKey + ?Sized,
+    {
+        let loc = Location::caller();
+        let k = key.hook_key();
+        fire(Op::MapGet, self.addr(), k, false, false, loc);
+        let r = self.0.view(key, f);
+        fire(Op::MapGet, self.addr(), k, true, r.is_some(), loc);
+        r
+    }
+
     /// see `dashmap::DashMap`
     #[track_caller]
     pub fn contains_key(&self, key: &K) -> bool {
